@@ -15,7 +15,7 @@ from dataclasses import dataclass, field, replace
 from typing import Any
 
 from .model import Cls, Func, Model, Module, dotted, unparse
-from .terms import EMPTY, FALSE, NONE, TRUE, Term, alpha_normalise, const, has_unknown, is_term, subst, unknown, var
+from .terms import EMPTY, FALSE, NONE, TRUE, Term, alpha_normalise, alpha_normalise_bound, const, has_unknown, is_term, subst, unknown, var
 
 SET_METHODS = {
     "union": "union",
@@ -73,9 +73,9 @@ def add_cond(conds: tuple, c: Term) -> tuple:
     """Append a condition unless an alpha-equivalent one is already present."""
     if c == TRUE:
         return conds
-    ca = alpha_normalise(c)
+    ca = alpha_normalise_bound(c)
     for d in conds:
-        if d == c or alpha_normalise(d) == ca:
+        if d == c or alpha_normalise_bound(d) == ca:
             return conds
     return conds + (c,)
 
@@ -1151,7 +1151,21 @@ class Evaluator:
                     parts.append(("fmt", self.eval1(v.value, state, func), const(v.conversion)))
             return [(state, ("fstr", tuple(parts)))]
         if isinstance(e, ast.Lambda):
-            return [(state, ("lambda", id(e), unparse(e)))]
+            # alpha-canonical closure: ('lam', (bound parameter variables), body term); free names are captured by value
+            a = e.args
+            if a.vararg or a.kwarg or a.kwonlyargs or a.defaults:
+                return [(state, ("lambda", id(e), unparse(e)))]
+            s2 = state.fork()
+            params = []
+            for p_ in a.posonlyargs + a.args:
+                v = self.fresh(p_.arg.strip("_") + "_" if p_.arg.strip("_") else "a_")
+                s2.env[p_.arg] = v
+                params.append(v)
+            try:
+                body = self.eval1(e.body, s2, func)
+            except Budget:
+                raise
+            return [(state, ("lam", tuple(params), body))]
         if isinstance(e, ast.Starred):
             return [(s, ("star", v)) for s, v in self.eval(e.value, state, func)]
         if isinstance(e, ast.NamedExpr):
@@ -1495,6 +1509,19 @@ class Evaluator:
                         out.append(self.eval1(e.elt, s2, func))
                 if ok:
                     return ("listlit", tuple(out))
+        if kind != "dict" and len(gens) == 1 and gens[0][0][0] == "var":
+            pat, it, conds = gens[0]
+            src = it
+            while src[0] == "call" and src[1] in ("list", "tuple", "iter") and len(src[2]) == 1 and not src[3]:
+                src = src[2][0]
+            if src[0] == "comp" and src[1] in ("list", "gen") and not (isinstance(src[2], tuple) and src[2] and src[2][0] == "%payload"):
+                # (f(m) for m in [g(d) for d in D] if c(m))  =  (f(g(d)) for d in D if c(g(d)))
+                m = {pat: src[2]}
+                inner = list(src[3])
+                if conds:
+                    lp, li, lc = inner[-1]
+                    inner[-1] = (lp, li, tuple(lc) + tuple(subst(c, m) for c in conds))
+                return ("comp", kind, subst(elt, m), tuple(inner))
         return ("comp", kind, elt, tuple(gens))
 
     # -------------------------------------------------------------- calls
@@ -1594,6 +1621,9 @@ class Evaluator:
                         return [(state, ("call", f[1], tuple(args), tuple(sorted(kwargs.items()))))]
                     return self.inline(m, args, kwargs, state, func, line, self_term=f)
             return [(state, ("call", f[1], tuple(args), tuple(sorted(kwargs.items()))))]
+        if h == "lam" and not kwargs and len(args) == len(f[1]) and not any(a[0] == "star" for a in args):
+            self.calls_resolved += 1
+            return [(state, subst(f[2], dict(zip(f[1], args))))]
         if h == "localdef":
             node, owner = self._localdefs[f[2]]
             lf = Func(f"{owner.qname}.<locals>.{node.name}", owner.module, node, None, ())
@@ -1751,7 +1781,7 @@ class Evaluator:
         for c in conds:
             if c == FALSE:
                 return True
-            c = alpha_normalise(c)
+            c = alpha_normalise_bound(c)
             if c[0] == "not":
                 neg.add(c[1])
             else:
@@ -1887,6 +1917,24 @@ class Evaluator:
                 cs = [self.as_cond(x) for x in items]
                 return [(state, self.mk_bool("or" if name == "any" else "and", cs) if cs else (FALSE if name == "any" else TRUE))]
             return [(state, (name, args[0]))]
+        if name in ("map", "filter") and len(args) == 2 and not kwargs:
+            fn, xs = args
+            items = self._literal_items(xs)
+            v = self.fresh("m_")
+            et = self.elem_type(xs)
+            if et is not None:
+                self.set_type(v, et)
+            if name == "map" and xs[0] == "comp" and xs[1] in ("list", "gen"):
+                # map(f, [g(d) for d in D]) = (f(g(d)) for d in D)
+                res = self.apply(fn, [xs[2]], {}, state, func, line)
+                if len(res) == 1 and res[0][1][0] != "apply":
+                    return [(state, ("comp", "gen", res[0][1], xs[3]))]
+            res = self.apply(fn, [v], {}, state, func, line) if fn != NONE else [(state, v)]
+            if len(res) == 1 and res[0][1][0] != "apply":
+                body = res[0][1]
+                if name == "map":
+                    return [(state, ("comp", "gen", body, ((v, xs, ()),)))]
+                return [(state, ("comp", "gen", v, ((v, xs, (self.as_cond(body),)),)))]
         if name in ("tuple", "list") and len(args) == 1 and not kwargs:
             items = self._literal_items(args[0])
             if items is not None:
@@ -2002,6 +2050,18 @@ class Evaluator:
                 return [(state, args[1])]
         if tail == "deepcopy" and len(args) == 1:
             return [(state, ("copyof", args[0]))]
+        if tail == "takewhile" and len(args) == 2:
+            # the prefix of the sequence before the first element that fails the predicate = a loop that appends while the predicate
+            # holds and breaks at the first failure
+            pred, seq = args
+            v = self.fresh("w_")
+            et = self.elem_type(seq)
+            if et is not None:
+                self.set_type(v, et)
+            res = self.apply(pred, [v], {}, state, func, line)
+            if len(res) == 1 and res[0][1][0] != "apply":
+                c = self.as_cond(res[0][1])
+                return [(state, ("accum", "concat", ("listlit", ()), ("listlit", (v,)), ((v, seq, (c,)),), const(True)))]
         return [(state, ("call", q, tuple(args), tuple(sorted(kwargs.items()))))]
 
     def apply_method_generic(self, recv: Term, name: str, args, kwargs, state: State, func: Func, line: int,
@@ -2249,9 +2309,9 @@ def resolve_ites(paths: list[Path], limit: int = 64) -> list[Path]:
             out.append(p)
             continue
         c = it[1]
-        ca = alpha_normalise(c)
-        pos = {alpha_normalise(x) for x in p.conds}
-        neg = {alpha_normalise(_neg(x)) for x in p.conds}
+        ca = alpha_normalise_bound(c)
+        pos = {alpha_normalise_bound(x) for x in p.conds}
+        neg = {alpha_normalise_bound(_neg(x)) for x in p.conds}
         lits_t = [l for alt in _pos_alts(c, 8) for l in alt] if c[0] in ("and", "or", "not") else [c]
         def red(path, branch, extra=()):
             m = {it: branch}
@@ -2260,9 +2320,9 @@ def resolve_ites(paths: list[Path], limit: int = 64) -> list[Path]:
                 conds = add_cond(conds, l)
             return replace(path, conds=conds, value=subst(path.value, m))
 
-        if ca in pos or (c[0] == "and" and all(alpha_normalise(x) in pos for x in c[1:])):
+        if ca in pos or (c[0] == "and" and all(alpha_normalise_bound(x) in pos for x in c[1:])):
             work.append(red(p, it[2]))
-        elif ca in neg or alpha_normalise(_neg(c)) in pos:
+        elif ca in neg or alpha_normalise_bound(_neg(c)) in pos:
             work.append(red(p, it[3]))
         else:
             for alt in _pos_alts(c, 8):
@@ -2272,8 +2332,8 @@ def resolve_ites(paths: list[Path], limit: int = 64) -> list[Path]:
     # drop syntactically contradictory paths
     res = []
     for p in out:
-        pos = {alpha_normalise(c) for c in p.conds if c[0] != "not"}
-        if any(c[0] == "not" and alpha_normalise(c[1]) in pos for c in p.conds):
+        pos = {alpha_normalise_bound(c) for c in p.conds if c[0] != "not"}
+        if any(c[0] == "not" and alpha_normalise_bound(c[1]) in pos for c in p.conds):
             continue
         res.append(p)
     return res
@@ -2299,8 +2359,8 @@ def dnf_paths(paths: list[Path], limit: int = 32) -> list[Path]:
             for c in a:
                 conds = add_cond(conds, c)
             # drop syntactically contradictory alternatives
-            pos = {alpha_normalise(c) for c in conds if c[0] != "not"}
-            if any(c[0] == "not" and alpha_normalise(c[1]) in pos for c in conds):
+            pos = {alpha_normalise_bound(c) for c in conds if c[0] != "not"}
+            if any(c[0] == "not" and alpha_normalise_bound(c[1]) in pos for c in conds):
                 continue
             out.append(replace(p, conds=conds))
     return resolve_ites(out)
